@@ -611,7 +611,13 @@ func runScenario(sc scenario, out sink, rnd func(int) int) (fails []fail) {
 	for name, text := range map[string]string{"MintedClaim.PublicClaimID": pub, "ParseClaimIDStrict.PublicClaimID": p.PublicClaimID(),
 		"ParseClaimID.PublicClaimID": security.ParseClaimID(claim).PublicClaimID(), "SessionID": sid} {
 		out.OracleCheck()
-		if hasSecretWindow(text, secret, 6) {
+		// a public form that is a prefix of the session id (+ "#...") carries only public data; anything
+		// else is scanned, with the session id itself cut out so that its own digits cannot collide
+		body := strings.TrimSuffix(text, "#...")
+		if strings.HasPrefix(wantSid, body) {
+			continue
+		}
+		if hasSecretWindow(strings.ReplaceAll(text, wantSid, ""), secret, 6) {
 			bad("public-leaks-secret", "%s = %q contains part of the secret %q", name, text, secret)
 		}
 	}
